@@ -635,7 +635,7 @@ class Walker:
             target = self.fi.module.functions.get(f.id)
         elif isinstance(f, ast.Attribute) and isinstance(f.value, ast.Name) and f.value.id == "self" and self.fi.cls is not None:
             target = self.index.lookup_method(self.fi.cls, f.attr)
-            skip = 1
+            skip = 0 if target is not None and target.is_static else 1
         if target is None or target.node is self.fi.node or getattr(target, "name", None) in self.no_inline:
             return False
         if private_only and not target.node.name.startswith("_"):
